@@ -104,6 +104,8 @@ HandlerAtMostOnce == \A i \in Calls : runs[i] <= 1
 OkOnlyIfServerSentOk == \A i \in Calls : (kind[i] \notin {"none", "oneway"} /\ cend[i].code = "ok") =>
                             (hret[i].code = "ok" /\ hret[i].res = cend[i].res)
 StreamPrefix == \A i \in Calls : c2s[i].got <= Len(c2s[i].sent) /\ s2c[i].got <= Len(s2c[i].sent)
-\* at the end of a run without faults every issued call ran its handler exactly once
-AllHandled == failed \/ \A i \in Calls : kind[i] # "none" => runs[i] = 1
+\* at the end of a run without faults every issued call ran its handler exactly once; a call whose caller's own deadline
+\* expired may have been given up before its request was written, and then has no handler run
+AllHandled == failed \/ \A i \in Calls : kind[i] # "none" =>
+                  (runs[i] = 1 \/ (kind[i] = "deadline" /\ cend[i].code = "timeout" /\ runs[i] = 0))
 =============================================================================
